@@ -784,7 +784,7 @@ def incr(
         cur_vinfo = old_vinfo._replace(**cur_cinfo._asdict())
 
     has_tag_part = cur_vinfo.tag != "final"
-    if tag_num and not tag and not has_tag_part:
+    if tag_num and (not tag or tag == "final") and not has_tag_part:
         logger.error("Invalid arguments, non-final --tag=<tag> is needed to use --tag-num.")
         return None
 
